@@ -32,7 +32,7 @@ use rpki::rrdp::{
 use rpki::uri;
 use rpki_verif::engine::enumerate::{par_for, seq_at, seq_count};
 use rpki_verif::engine::report::repo_dir;
-use rpki_verif::{guard, hex, trunc, Ctx, Space};
+use rpki_verif::{guard, hex, trunc, Ctx};
 use serde_json::json;
 use uuid::Uuid;
 
@@ -107,10 +107,24 @@ impl Fails {
             Err(p) => { self.push(order, oracle, wit(), p); false }
         }
     }
+    /// Reports in enumeration order, except that per oracle up to three
+    /// failures with *different* kinds of detail (text up to the first ';')
+    /// go first, so that two distinct defects behind one oracle are both
+    /// among the printed witnesses.
     fn flush(&self, ctx: &Ctx) {
         let mut v = std::mem::take(&mut *self.v.lock().unwrap());
         v.sort();
-        for (_, oracle, wit, detail) in v { ctx.fail(oracle, wit, detail) }
+        let mut lead: Vec<usize> = Vec::new();
+        let mut seen: BTreeMap<&'static str, Vec<String>> = BTreeMap::new();
+        for (i, (_, oracle, _, detail)) in v.iter().enumerate() {
+            let class = detail.split(';').next().unwrap_or("").to_string();
+            let classes = seen.entry(oracle).or_default();
+            if classes.len() < 3 && !classes.contains(&class) { classes.push(class); lead.push(i) }
+        }
+        for &i in &lead { let (_, oracle, wit, detail) = &v[i]; ctx.fail(oracle, wit.clone(), detail.clone()) }
+        for (i, (_, oracle, wit, detail)) in v.into_iter().enumerate() {
+            if !lead.contains(&i) { ctx.fail(oracle, wit, detail) }
+        }
     }
 }
 
@@ -979,12 +993,12 @@ fn limit_at(kind: Kind, lay: &DocLayout, p: usize, run: &[u8]) -> u64 {
 
 /// One endless-run case: insertion at p of run kind ri through a BufReader of capacity bufcap.
 #[derive(Clone, Copy)]
-struct Case { kind: Kind, p: usize, ri: usize, bufcap: usize }
+struct Case { p: usize, ri: usize, bufcap: usize }
 
 fn space_hostile_endless(ctx: &Ctx) {
     let thorough = ctx.tier.is_thorough();
     let sp = ctx.space("hostile.endless",
-        "skeleton document per file type x insertion offset x run kind from a generator that never ends, read through counting reader + BufReader: no panic, and octets pulled <= start of the element containing the insertion + configured limit + BufReader capacity (generator capped at insertion + 4 x limit; reaching the cap is a violation). quick: under the 1 MB limit every offset x 3 kinds + all 24 kinds at the first offset of every grammar item, under the 100 MB limit 3 kinds at the first offset of every grammar item; thorough: every offset x 24 kinds (1 MB, plus two more buffer sizes for 8 kinds) and every offset x 4 kinds + 8 kinds at item-first offsets (100 MB). non-trivial = cases the parser only left because the limit tripped (pulled >= limit)");
+        "skeleton document per file type x insertion offset x run kind from a generator that never ends, read through counting reader + BufReader: no panic, and octets pulled <= start of the element containing the insertion + configured limit + BufReader capacity (generator capped at insertion + 4 x limit; reaching the cap is a violation). quick: under the 1 MB limit every offset x 3 kinds + all 24 kinds at the first offset of every grammar item, under the 100 MB limit 3 kinds at the first offset of every grammar item; thorough: every offset x 24 kinds (1 MB, plus two more buffer sizes for 8 kinds) and every offset x 2 kinds + 8 kinds at item-first offsets (100 MB). non-trivial = cases the parser only left because the limit tripped (pulled >= limit)");
     let blocks: Vec<Vec<u8>> = RUNS.iter().map(|r| block_of(r.unit)).collect();
     let mut bound: Vec<String> = Vec::new();
     let mut classes_seen: BTreeMap<&'static str, u64> = BTreeMap::new();
@@ -1007,7 +1021,7 @@ fn space_hostile_endless(ctx: &Ctx) {
             let light = kind == Kind::Notification || p <= lay.root_gt;
             let mut add = |ri: usize, bufcap: usize| {
                 if limit_at(kind, lay, p, RUNS[ri].unit) == HEADER_LIMIT { n_light += 1 } else { n_heavy += 1 }
-                cases.push(Case { kind, p, ri, bufcap });
+                cases.push(Case { p, ri, bufcap });
             };
             if light {
                 if thorough {
@@ -1018,7 +1032,7 @@ fn space_hostile_endless(ctx: &Ctx) {
                     if p % 8 == 0 { add(1, 64); add(6, 64) }
                 }
             } else if thorough {
-                for ri in HEAVY_RUNS { if first || [0usize, 1, 6, 7].contains(&ri) { add(ri, 8192) } }
+                for ri in HEAVY_RUNS { if first || [0usize, 6].contains(&ri) { add(ri, 8192) } }
             } else if first {
                 for ri in [0usize, 1, 6] { add(ri, 8192) }
             }
@@ -1170,7 +1184,7 @@ fn head_of(doc: &[u8], n: usize, root: &str) -> Vec<u8> {
 
 fn space_hostile_mutations(ctx: &Ctx) {
     let sp = ctx.space("hostile.captured_mutations",
-        "captured files under test-data/rrdp (the three emptied bomb files are skipped, see hostile.bombs): every listed offset x {byte := each of < > & \" ' / = SP NUL FF a (when different), truncate here, delete this byte}, parsed by the real parser with the collecting processor: returns without panic. quick = every offset of lolz-notification and ripe-notification and of the first 3 elements of ripe-delta / ripe-snapshot; thorough adds every offset of the other two notification files and of the full delta, and all markup + text-node edges (8 octets) of the full snapshot with the 6 markup-significant substitutions; non-trivial = mutants the parser rejects");
+        "captured files under test-data/rrdp (the three emptied bomb files are skipped, see hostile.bombs): every listed offset x {byte := each of < > & \" ' / = SP NUL FF a (when different), truncate here, delete this byte}, parsed by the real parser with the collecting processor: returns without panic. quick = every offset of lolz-notification and ripe-notification and of the first 3 elements of ripe-delta / ripe-snapshot; thorough adds every offset of the other two notification files and of the first 12 elements of delta / snapshot, and all markup + text-node edges (8 octets at either end) of the full delta (all ops) and the full snapshot (the 6 markup-significant substitutions + truncate + delete); non-trivial = mutants the parser rejects");
     let dir = format!("{}/test-data/rrdp", repo_dir());
     let thorough = ctx.tier.is_thorough();
     // (name, kind, bytes, offsets, substitution values)
@@ -1191,13 +1205,12 @@ fn space_hostile_mutations(ctx: &Ctx) {
         let all = (0..head.len()).collect();
         seeds.push((format!("{name}[first 3 elements]"), kind, head, all, &SUBST));
         if thorough {
-            if kind == Kind::Delta {
-                let offs = (0..d.len()).collect();
-                seeds.push((name.to_string(), kind, d, offs, &SUBST));
-            } else {
-                let offs = markup_and_edges(&d);
-                seeds.push((name.to_string(), kind, d, offs, &SUBST[..6]));
-            }
+            let head = head_of(&d, 12, root);
+            let all = (0..head.len()).collect();
+            seeds.push((format!("{name}[first 12 elements]"), kind, head, all, &SUBST));
+            let offs = markup_and_edges(&d);
+            let subst: &[u8] = if kind == Kind::Delta { &SUBST } else { &SUBST[..6] };
+            seeds.push((name.to_string(), kind, d, offs, subst));
         }
     }
     let fails = Fails::new();
